@@ -28,6 +28,9 @@ pub enum SEv {
     Update(u32, UacEdit),
     /// update_engine with another layout (new layout path, new option bits for that method)
     UpdateLayout(String, u32),
+    /// update_engine with the same layout and options but the database directory switched on/off;
+    /// the tables of a context are loaded once at construction, so nothing observable changes
+    UpdateDb(bool),
     /// drop the context and create a new one over the same user directory
     Restart,
 }
@@ -41,6 +44,7 @@ impl SEv {
             SEv::Finish => json!("finish"),
             SEv::Update(b, e) => json!({"update_engine": {"option_bits": b, "user_autocorrect_edit": format!("{:?}", e)}}),
             SEv::UpdateLayout(l, b) => json!({"update_engine": {"layout": l, "option_bits": b}}),
+            SEv::UpdateDb(d) => json!({"update_engine": {"database": d}}),
             SEv::Restart => json!("restart"),
         }
     }
@@ -159,6 +163,8 @@ pub struct Session {
     loaded_mtime: Option<SystemTime>,
     clock: u64,
     pub model_dead: bool,
+    /// whether the tables the context loaded at construction came from the database directory
+    pub model_db: bool,
     pub id: String,
 }
 
@@ -235,7 +241,9 @@ impl Session {
         let _ = (uac, sels);
         let initial = json!({"layout": opts.layout, "database": opts.database, "option_bits": if phonetic { pbits(&opts) } else { xbits(&opts) },
             "options": format!("{:?}", opts), "user_files": files});
-        let mut s = Session { phonetic, layout_tag, opts, cfg, ctx, dir, history: vec![], initial, loaded_mtime: None, clock: 0, model_dead: false, id: format!("s{}", NEXT_ID.fetch_add(1, std::sync::atomic::Ordering::Relaxed)) };
+        let model_db = opts.database;
+        let mut s = Session { phonetic, layout_tag, opts, cfg, ctx, dir, history: vec![], initial, loaded_mtime: None, clock: 0, model_dead: false, model_db: false, id: format!("s{}", NEXT_ID.fetch_add(1, std::sync::atomic::Ordering::Relaxed)) };
+        s.model_db = model_db;
         s.model_new(w)?;
         Ok(s)
     }
@@ -245,9 +253,9 @@ impl Session {
             let (t, uac) = self.uac_state();
             self.loaded_mtime = t;
             let sels = self.sels_on_disk();
-            w.ask_db(self.opts.database, &format!("PNEW {} {} {} {}", self.id, pbits(&self.opts), map_tok(&uac), map_tok(&sels))).map(|_| ())
+            w.ask_db(self.model_db, &format!("PNEW {} {} {} {}", self.id, pbits(&self.opts), map_tok(&uac), map_tok(&sels))).map(|_| ())
         } else {
-            w.ask_db(self.opts.database, &format!("XNEW {} {} {}", self.id, self.layout_tag, xbits(&self.opts))).map(|_| ())
+            w.ask_db(self.model_db, &format!("XNEW {} {} {}", self.id, self.layout_tag, xbits(&self.opts))).map(|_| ())
         }
     }
 
@@ -306,7 +314,29 @@ impl Session {
                 self.cfg = newcfg;
                 o
             }
+            SEv::UpdateDb(d) => {
+                self.opts.database = *d;
+                let newcfg = Cfg::new(&self.opts);
+                let o = self.ctx.update(&newcfg);
+                self.cfg = newcfg;
+                // the phonetic method looks at the user's auto-correct file on every update
+                if self.phonetic {
+                    let (t, uac) = self.uac_state();
+                    let reload = match (t, self.loaded_mtime) {
+                        (Some(t), Some(l)) if t > l => Some(uac),
+                        (Some(_), None) => Some(uac),
+                        (None, Some(_)) => Some(vec![]),
+                        _ => None,
+                    };
+                    if reload.is_some() { self.loaded_mtime = t; }
+                    mev = Some(format!("u{}:{}", pbits(&self.opts), reload.map(|m| map_tok(&m)).unwrap_or_else(|| "n".into())));
+                } else {
+                    mev = Some(format!("u{}", xbits(&self.opts)));
+                }
+                o
+            }
             SEv::Restart => {
+                self.model_db = self.opts.database;
                 let cfg = Cfg::new(&self.opts);
                 match Ctx::new(&cfg) {
                     Ok(c) => { self.ctx = c; self.cfg = cfg; Out::Unit }
@@ -320,7 +350,7 @@ impl Session {
             match ev {
                 SEv::Restart => match self.model_new(w) { Ok(()) => "U:0".to_string(), Err(e) => format!("E {}", e) },
                 SEv::UpdateLayout(..) => if self.layout_tag == "?" { self.model_dead = true; "DEAD".to_string() } else { match self.model_new(w) { Ok(()) => "U:0".to_string(), Err(e) => format!("E {}", e) } },
-                _ => match w.ask_db(self.opts.database, &format!("{} {} {}", if self.phonetic { "PEV" } else { "XEV" }, self.id, mev.unwrap())) { Ok(r) => r, Err(e) => format!("E {}", e) },
+                _ => match w.ask_db(self.model_db, &format!("{} {} {}", if self.phonetic { "PEV" } else { "XEV" }, self.id, mev.unwrap())) { Ok(r) => r, Err(e) => format!("E {}", e) },
             }
         };
         if model == "PANIC" || model.starts_with("E ") { self.model_dead = true; }
@@ -328,7 +358,7 @@ impl Session {
     }
 
     pub fn model_sels(&mut self, w: &mut Worker2) -> Option<Map> {
-        let r = w.ask_db(self.opts.database, &format!("PSELS {}", self.id)).ok()?;
+        let r = w.ask_db(self.model_db, &format!("PSELS {}", self.id)).ok()?;
         if r == "-" { return Some(vec![]); }
         let mut m: Map = r.split(',').filter_map(|kv| kv.split_once('=')).map(|(k, v)| (untok(k), untok(v))).collect();
         m.sort();
@@ -379,6 +409,7 @@ impl SEv {
         if let Some(b) = v.get("backspace") { return Some(SEv::Back(b["ctrl"].as_bool().unwrap_or(false))); }
         if let Some(c) = v.get("commit") { return Some(SEv::Commit(c.as_u64()? as usize)); }
         if let Some(u) = v.get("update_engine") {
+            if let Some(d) = u.get("database") { return Some(SEv::UpdateDb(d.as_bool()?)); }
             if let Some(l) = u.get("layout") { return Some(SEv::UpdateLayout(l.as_str()?.to_string(), u["option_bits"].as_u64()? as u32)); }
             let e = u["user_autocorrect_edit"].as_str().unwrap_or("Keep");
             let edit = if e.starts_with("Delete") { UacEdit::Delete } else if e.starts_with("Write") {
